@@ -189,6 +189,15 @@ class Execution:
                         with table.new_transaction() as tx:
                             tx.delete_files(paths)
                             tx.commit()
+                    elif t == "multi":
+                        with table.new_transaction() as tx:
+                            for k in range(1, op.get("n", 0) + 1):
+                                tx.append_data([{"id": self.scn.idx(spec.name) * 100 + i * 10 + k, "k": 0}], schema())
+                            if op.get("refs"):
+                                tx.delete_files(["/" + self._path_of(self._file_ref(r)) for r in op["refs"]])
+                            if op.get("cutoff") is not None:
+                                tx.expire_snapshots(env.clock.base + int(op["cutoff"]))
+                            tx.commit()
                     elif t == "expire":
                         with table.new_transaction() as tx:
                             tx.expire_snapshots(env.clock.base + int(op["cutoff"]))
@@ -200,14 +209,20 @@ class Execution:
                             res = "false"
                     elif t == "read":
                         api = op.get("api", "scan")
-                        if api == "scan":
-                            rows = table.scan()
+                        vc = op.get("verify")
+                        if api == "count":
+                            extra["count"] = table.row_count()
+                            rows = []
+                        elif api == "scan":
+                            rows = table.scan(verify_checksums=vc)
                         elif api == "parallel":
-                            rows = table.scan(parallel=2)
+                            rows = table.scan(parallel=2, verify_checksums=vc)
                         elif api == "batches":
-                            rows = [r for b in table.scan_batches(batch_size=1) for r in b]
+                            rows = [r for b in table.scan_batches(batch_size=op.get("bs", 1), verify_checksums=vc) for r in b]
                         elif api == "records":
-                            rows = list(table.iter_records())
+                            rows = list(table.iter_records(verify_checksums=vc))
+                        elif api == "filter":
+                            rows = table.scan(filter={"id": (">=", 0)}, columns=["id"], verify_checksums=vc)
                         else:
                             raise MachineryError(api)
                         extra["files"] = sorted({r["id"] for r in rows})
@@ -312,8 +327,14 @@ def spec_prog(scn: Scenario) -> Dict[str, List[Dict[str, Any]]]:
                 ops.append({"t": "expire", "cutoff": int(op["cutoff"])})
             elif t == "delsnap":
                 ops.append({"t": "delsnap", "who": [op["who"][0], int(op["who"][1])]})
+            elif t == "multi":
+                ids = set()
+                for r in op.get("refs", []):
+                    ids.add(960 + int(r[1]) if r[0] == "init" else scn.idx(r[0]) * 100 + int(r[1]) * 10 + int(r[2]))
+                ops.append({"t": "multi", "add": [scn.idx(a.name) * 100 + i * 10 + k for k in range(1, op.get("n", 0) + 1)],
+                            "del": ids, "cutoff": int(op["cutoff"]) if op.get("cutoff") is not None else -1})
             elif t == "read":
-                ops.append({"t": "read"})
+                ops.append({"t": "read", "data": op.get("api", "scan") != "count"})
             else:
                 raise MachineryError(t)
         out[a.name] = ops
